@@ -80,7 +80,7 @@ CHECKS = {
             "All prefix+fill+suffix strings over {a, NUL, 2-byte, 4-byte characters} of byte length 0..capacity+2 and a NUL at every position, through fixed_str_to_bytes/bytes_to_fixed_str (32, 64) and Store::init, enable_role->grant/has_role/revoke/disable_role, Market::init, token config and the real timelock initialize_executor instruction; accepted => read back unchanged and usable.",
             "string alphabet of four characters", "§5 C35"),
     "C36": ("mc-store", MC, "explicit-state BFS (E3) over real timelock/store instructions in the in-process runtime against a reference protocol",
-            "All interleavings to the stated depth of create (valid/invalid shapes), approve, cancel, execute, increase_delay by entitled and non-entitled signers, role revocation/re-grant and clock advances around the delay, executed through gmsol_timelock::entry with CPI role checks into gmsol_store::entry; outcome of every instruction compared with the protocol; executed instruction compared bit for bit with the buffered one via a recording probe program.",
+            "All interleavings to the stated depth of create (valid/invalid shapes), approve, batched approve (also authenticated for a second role whose executor owns no buffer), cancel, execute, increase_delay by entitled and non-entitled signers, role revocation/re-grant and clock advances around the delay, executed through gmsol_timelock::entry with CPI role checks into gmsol_store::entry; outcome of every instruction compared with the protocol; executed instruction compared bit for bit with the buffered one via a recording probe program.",
             "svm-lite runtime trusted; timelock config account fabricated", "§5 C36"),
     "C42": ("mc-sdk", E1, "exhaustive enumeration (E1) of all small weighted market graphs against brute-force path enumeration",
             "Every weighted graph of the listed shapes (2-4 markets over 3-5 tokens, each direction unswappable or one of five ln-rates) x step limits 1-3 x both search modes x all (source, target): recommended paths validated edge by edge, reported rate recomputed from the path, optimality (absent negative cycles) compared with brute force; a completeness guard forbids returning nothing when the globally cheapest path fits the limit.",
@@ -92,14 +92,14 @@ CHECKS = {
             "Every sequence of up to 3 (thorough 4) parallel groups from 9 shapes x instruction limits x size limits x payer-change flag x lookup table: after add+optimize the labelled instructions are neither dropped, duplicated nor reordered, atomic groups unsplit, merges only between mergeable groups, payer rule kept, limits respected and the size estimate is not below the bincode size of the built transaction.",
             "shapes and limits listed in the evidence", "§5 C41"),
     "C22": ("mc-store", MC, "explicit-state BFS (E3) over real store instructions in the in-process runtime, invariant after every successful instruction",
-            "All interleavings to the stated depth of create/execute/close of deposits and withdrawals by owners, the keeper and a stranger with clock advances and feed re-publication, over two markets sharing both vaults (plus seeded liquidity): after every successful instruction each market's recorded balances cover liquidity+impact+fees and collateral, and the sum over markets sharing a vault does not exceed the vault's token balance.",
-            "svm-lite runtime trusted; fee claims and keeper transfers are explored from the real world and from fabricated position-like start states (collateral sums, accrued fees); swaps, shifts, position orders and liquidations are not in the action alphabet", "§6 C22"),
+            "Two machines. (1) All interleavings to the stated depth of create/execute/close of deposits and withdrawals by owners, the keeper and a stranger, fee claims and keeper transfers, clock advances and feed re-publication over two markets sharing both vaults, also from fabricated position-like start states. (2) Real position orders (prepare/create/execute/close of market increase and decrease orders of two traders on both markets), liquidations (also insolvent), fee claims, four price sets and clock advances. After every successful instruction each market's recorded balances cover liquidity+impact+fees and collateral, the collateral-sum and open-interest pools equal the sums over the position accounts, and the markets sharing a vault do not record more than it holds.",
+            "svm-lite runtime trusted; swap orders, shifts and ADL are not in the action alphabet", "§10 C22"),
     "C23": ("mc-store", MC, "explicit-state BFS (E3) over real store instructions in the in-process runtime against the action-lifecycle protocol",
-            "Same exploration as C22: the action-state transition relation (Pending->Completed/Cancelled exactly once, terminal absorbing), who may execute/close in which state, escrow contents returned to the owner on close, consumed escrow on completion, execution-fee and rent refunds, and untouched markets/vaults/escrow after a cancelled execution are checked on every transition.",
-            "deposits and withdrawals only (orders, shifts and GLV actions share the Close/ActionHeader code but are not explored)", "§6 C23"),
-    "C24": ("mc-store", E1, "exhaustive product enumeration (E1) of the real PriceValidator/SmallPrices against the statement in i128",
-            "Age/future rules over boundary clocks, timestamps, adjustments, max ages and future excesses at the i64/u64 limits; deviation rule and well-formedness through the validate_one + SmallPrices::from_price pipeline over dense prices, references, factors and multipliers; timestamp-range rule over pairs/triples of validated timestamps.",
-            "the provider/feed clause and clear-after-use live in instruction handlers and are not covered here", "§5 C24"),
+            "Same two explorations as C22 with the full actor alphabet (owner, keeper, stranger): the action-state transition relation (Pending->Completed/Cancelled exactly once, terminal absorbing) for deposits, withdrawals and position orders, who may execute/close/liquidate in which state, escrow contents returned on close (input funds to the owner, outputs to the receiver, also when they differ), consumed escrow on completion, execution-fee and rent refunds, and untouched markets/vaults/positions/escrow after a cancelled execution (unreachable minimum output, unacceptable price, expired request) are checked on every transition.",
+            "shifts are not explored; GLV actions are executed in C45 but not under this relation", "§10 C23"),
+    "C24": ("mc-store", E1, "exhaustive product enumeration (E1) of the real PriceValidator/SmallPrices against the statement in i128, plus exhaustive enumeration of feed-kind pairs through the real execute_deposit instruction",
+            "Age/future rules over boundary clocks, timestamps, adjustments, max ages and future excesses at the i64/u64 limits; deviation rule and well-formedness through the validate_one + SmallPrices::from_price pipeline over dense prices, references, factors and multipliers; timestamp-range rule over pairs/triples of validated timestamps. Instruction level: execute_deposit over all pairs of eight feed kinds (good, stale, future, far from the other feed, wrong provider, wrong feed id, inverted, zero) x three operation kinds: executed only with two good feeds; the oracle account as left in memory on return (also of failed, uncommitted instructions) is byte-identical to a cleared oracle.",
+            "svm-lite runtime trusted; Chainlink/Pyth feed parsing is C26/C28", "§10 C24"),
     "C25": ("mc-store", MC, "explicit-state BFS (E2) over PriceFeed::update sequences against a reference feed",
             "Every sequence of updates to the stated depth over timestamps around the stored one and the clock, ordered/inverted price triples, clock/slot steps, strict/idempotent mode and future excess; outcome, stored state, bytes unchanged on rejection, monotone timestamp and min<=price<=max in every state.",
             "alphabets and depth", "§5 C25"),
@@ -112,9 +112,9 @@ CHECKS = {
     "C31": ("mc-store", E1, "exhaustive enumeration (E1) of ranks x referral x factor tables on program and SDK over identical bytes",
             "Store::order_fee_discount_factor (program) and the SDK copy for every rank 0..17, referred or not, three rank tables, per-rank factors and referral discounts from {0,1,10%,50%,100%-1,100%} and beyond: range, monotonicity in referral, closed form within one unit, rejection above the maximum rank, equality of both implementations; the setter rejects factors above 100%.",
             "alphabets only", "§5 C31"),
-    "C32": ("mc-store", E1, "exhaustive product enumeration (E1) of the builder-fee helpers against exact big-integer arithmetic",
-            "compute/clamp/charge-on-increment/estimate-for-withdrawal over boundary and dense sizes x factors x min/max prices x increments x withdrawals x swap types: fee = ceil(floor(size*factor/UNIT)/price_min), split exact or refused, estimate = withdrawal + fee.",
-            "settlement (settle_builder_fee instruction) is not explored yet; helper functions only", "§5 C32"),
+    "C32": ("mc-store", E1, "exhaustive product enumeration (E1) of the builder-fee helpers against exact big-integer arithmetic plus explicit-state BFS (E3) over the real settle_builder_fee instruction",
+            "compute/clamp/charge-on-increment/estimate-for-withdrawal over boundary and dense sizes x factors x min/max prices x increments x withdrawals x swap types: fee = ceil(floor(size*factor/UNIT)/price_min), split exact or refused, estimate = withdrawal + fee. Settlement histories on a real pending order from twenty (recorded, escrow) start states: repeated settlements by the right builder, another user and nobody, tokens arriving, further fees recorded: each settlement moves min(recorded, escrow) to the builder only, zeroes the record, and a builder never receives more than was ever recorded.",
+            "no instruction attaches a builder yet (executions pass the constant factor 0): the record is attached through a visibility hook", "§10 C32"),
     "C20": ("mc-store", MC, "E1 matrices plus explicit-state BFS (E3-light) over real store instructions against the keeper permission policy",
             "Every MarketConfigKey and MarketConfigFlag x {not updatable, updatable} x {market keeper, config keeper, stranger} through update_market_config(_flag) and set_market_config_updatable; BFS over permission changes, updates by every actor, per-owner config buffers with updatable/mixed/empty entries, buffer application and clock advances across expiry; rejected calls leave the market account byte-identical.",
             "svm-lite runtime trusted; two keys and one flag in the history alphabet", "§5 C20"),
@@ -124,21 +124,21 @@ CHECKS = {
     "C33": ("mc-store", MC, "explicit-state BFS (E3) over the real user/referral instructions against a reference relation",
             "All sequences of prepare_user, initialize_referral_code, set_referrer (also with a forged referrer account), transfer, cancel and accept by three users over two codes to the stated depth (the reference state space is closed); outcomes and account contents compared with the reference; write-once referrer, no self referral, exactly one holder per code and ownership moving only on acceptance are evaluated on the accounts after every step.",
             "svm-lite runtime trusted", "§5 C33"),
-    "C38": ("mc-store", E1, "exhaustive product enumeration (E1) of the APY and reward functions against exact big-integer references",
-            "compute_time_weighted_apy over six gradients x stake starts x durations around every week boundary against the exact average of weekly buckets and a literal per-second sum; calculate_gt_reward_amount over boundary values x rates x integrals: formula, saturation, monotonicity, negative durations rejected.",
-            "the unstake instruction (partial/full exit, claims disabled) is not explored; durations bounded by 10^17 s", "§5 C38"),
+    "C38": ("mc-store", E1, "exhaustive product enumeration (E1) of the APY and reward functions against exact big-integer references plus explicit-state BFS (E3) over the real liquidity-provider program on the real store",
+            "compute_time_weighted_apy over six gradients x stake starts x durations around every week boundary against the exact average of weekly buckets and a literal per-second sum; calculate_gt_reward_amount over boundary values x rates x integrals: formula, saturation, monotonicity, negative durations rejected. Stake/unstake histories (stake_gm with the pricing CPI, unstake of all / half / all but one / one / too much by owner and stranger, claim switch, three minimum stake values, clock advances, dust dropped into a vault): partial unstakes pay exactly the request and keep floor(value*remaining/staked); full exits (by amount or forced by the minimum stake value) sweep and close the vault and the position; with claims disabled only full-amount unstakes pass.",
+            "durations bounded by 10^17 s; stake_glv and claim_gt are not explored", "§10 C38"),
     "C39": ("mc-store", MC, "explicit-state BFS (E2) over trade sequences on the real update_leaderboard plus E1 on extend_competition_time",
             "Every sequence of counted trades by seven traders with three or four volume increments to the stated depth: at most five distinct entries, sorted, latest volumes, filled with the top traders, excluded traders not above the last entry; extensions over end time/duration/cap/trigger time at the i64 limits never move the end earlier nor past max(old end, now + cap).",
             "merge-window/threshold bookkeeping of the on_executed handler is not explored", "§5 C39"),
     "C19": ("mc-store", E1, "exhaustive enumeration (E1) of the instruction x signer matrix plus explicit-state BFS (E3) of authority/receiver hand-over histories, through the real program entrypoints in the in-process runtime",
             "Every probed privileged store instruction (named in the evidence) is executed with valid accounts by the entitled signer (passes authorisation) and by a stranger, the admin and the single-role holder of each of nine other roles (must be rejected; rejected instructions commit nothing); the moving offices (store authority, fee receiver) are explored breadth first as nominate/accept histories by three actors to a fixpoint against a reference. Timelock instructions are covered by C36, market config updates by C20, execute/close by C23.",
-            "claims only the instructions listed in the evidence (34 of the store's guarded instructions); GLV, virtual inventory, position-order, treasury, liquidity-provider and competition administration are not probed", "§6 C19"),
+            "claims only the instructions listed in the evidence (46: store administration, token map, oracle, markets, GT, position-order execution and liquidation, GLV management, liquidity-provider administration); GLV actions, shifts, virtual inventory, ADL, treasury and competition administration are not probed", "§6 C19"),
     "C40": ("mc-store", E1, "exhaustive differential enumeration (E1) of program vs SDK on identical account bytes",
-            "Sizes of every zero-copy account declared for the SDK; every model accessor of the program Market vs the SDK MarketModel over a family of market contents (all keys populated, closed x closed-params x every flag, all pools populated, pure market); swaps and fee-state updates on a real RevertibleMarket vs the SDK model under the same stubbed time; real deposit/withdrawal instructions vs the SDK simulation (amounts and resulting views).",
-            "position increase/decrease differential not covered; discount comparison is C31", "§5 C40"),
+            "Sizes of every zero-copy account declared for the SDK; every model accessor of the program Market vs the SDK MarketModel over a family of market contents (all keys populated, closed x closed-params x every flag, all pools populated, pure market); swaps and fee-state updates on a real RevertibleMarket vs the SDK model under the same stubbed time; real deposit/withdrawal instructions vs the SDK simulation (amounts and resulting views); real increase/decrease order instructions on an A|A/B and a pure market, all four sides, four price moves, vs the SDK PositionModel (execution price, impact, pnl, output amounts, position after, removal, market view); every config key written with 0/1/MAX on a populated base for open/closed markets with and without closed-market parameters.",
+            "clock fixed for the position section (the SDK model has no borrowing-state update); discount comparison is C31", "§10 C40"),
     "C44": ("mc-store", E1, "exhaustive enumeration (E1) of swap paths executed through real deposit instructions in the in-process runtime",
-            "Every sequence of 0..3 markets out of five over three tokens (duplicates, non-chaining paths and paths through the deposit market included) x initial token x amounts as the swap path of a real create_deposit + execute_deposit: creation accepts exactly the duplicate-free chaining paths ending in the market's long token; after completion recorded balances and vaults move together, markets outside the path are untouched and every hop moved exactly the amounts of the C40-validated SDK swap in order; stored paths tampered to hold a duplicate (adjacent, or revisiting [p,q,p] where every hop chains) never complete.",
-            "paths of length 4-10, short-side paths, withdrawals and orders (same SwapMarkets code) are not enumerated", "§5 C44"),
+            "Every sequence of 0..3 markets out of five over three tokens (duplicates, non-chaining paths and paths through the deposit market included) x initial token x amounts as the swap path of a real create_deposit + execute_deposit: creation accepts exactly the duplicate-free chaining paths ending in the market's long token; after completion recorded balances and vaults move together, markets outside the path are untouched and every hop moved exactly the amounts of the C40-validated SDK swap in order; stored paths tampered to hold a duplicate (adjacent, or revisiting [p,q,p] where every hop chains) never complete. Withdrawals from the first market with every pair of (long-side, short-side) paths of length 0..2: recorded balances of every market move exactly as the withdrawal and both declared paths imply. SwapActionParams accessors over every (primary, secondary) length pair against the declared slices.",
+            "paths of length 4-10 and swap orders (same SwapMarkets code) are not enumerated", "§10 C44"),
     "C37": ("mc-store", E1, "exhaustive enumeration (E1) of factor setters and of claim orders executed through the real treasury instruction in the in-process runtime",
             "Config::set_gt_factor / set_buyback_factor over boundary factors from every reachable current value; the real complete_gt_exchange instruction (CPI into the store's close_gt_exchange, SPL transfers signed by the bank PDA) for all six claim orders of three claimants over a grid of one- and two-token bank balances and GT amounts: each claim = floor(balance*gt/remaining), never above holdings, at least the floor share of the original, recorded balance follows the vault, last claim drains, no double claim.",
             "bank / exchange / treasury config accounts fabricated through hooked state functions; deposits into the bank and confirmation through treasury instructions are not explored", "§5 C37"),
